@@ -45,7 +45,13 @@ def gen_request(rng, N):
     if r < 0.75:
         return ("str", one())
     if r < 0.85:
-        return ("strs", [one() for _ in range(rng.randint(1, 3))])
+        l = [one() for _ in range(rng.randint(1, 3))]
+        if rng.random() < 0.2:
+            # a malformed entry before or after entries that may already cover the batch
+            l = rng.choice([["all"], ["corner", "edge", "core"], l]) + [rng.choice(["gibberish", "2random3", "edge_random_2_3", "nonsense_1"])]
+            if rng.random() < 0.3:
+                l.reverse()
+        return ("strs", l)
     if r < 0.95:
         # the same group named more than once, once narrowed by random / uniform: the request is the UNION of its entries
         g = rng.choice(["corner", "edge", "core", "all"])
@@ -84,6 +90,10 @@ def check(rep, tier):
             # always: 'random' recording requests on a flat shelf WITH random shelf variability (the recording draws must not disturb the run)
             shape = (4, 4, 1); N = 16; k["s_sigma_rel"] = 0.3
             kind, req = "strs" if i % 3 == 2 else "str", ["random_3", "core_random_2", ["corner", "edge_random_2"], "edge.random.4", "random2", ("all_random_5", "corner")][i]
+        if 6 <= i < 12:
+            # always: a malformed entry next to entries that already select every vial (validation must not depend on what the other entries cover)
+            shape = [(3, 3, 1), (3, 3, 1), (3, 3, 1), (3, 3, 1), (2, 2, 1), (3, 2, 2)][i - 6]; N = shape[0] * shape[1] * shape[2]; arr = ["square", "hexagonal"][i % 2]
+            kind, req = "strs", [["all", "gibberish"], ("all", "2random3"), ["corner", "edge", "core", "nonsense"], ["gibberish", "all"], ["corner", "gibberish"], ("all", "edge_random_2_3")][i - 6]
         chosen, obs, exc = [], None, None
         import ethz_snow.snowflake as SFM
         try:
